@@ -33,7 +33,8 @@ def write_file(path, cfg0, decorated=False, capitals=False):
         if decorated:
             f.write("# my inputs for this year -- do not lose!\n# (values below were copied from the paper forms)\n\n")
             # a section of the user's own, with a text the INI reader could not interpolate (nobody reads it; it must survive)
-            f.write("[0_notes]\nprogress = about 50% done, ask the bank\n\n")
+            # ... and a value continued on indented lines, the way a long note is kept in an INI file
+            f.write("[0_notes]\nprogress = about 50% done, ask the bank\ntodo = call the employer\n\tabout box 14 = other\n\t[and] the state number\n\n")
         conf.write(f)
         if decorated:
             f.write("\n\n# end of file: remember to ask about the missing forms ....................................................\n")
